@@ -1,12 +1,12 @@
 package props
 
 import (
-	"os"
 	"context"
 	"encoding/binary"
 	"errors"
 	"fmt"
 	"net"
+	"os"
 	"time"
 
 	"github.com/insomniacslk/dhcp/dhcpv4"
